@@ -325,6 +325,33 @@ func ipdbScript(t *testing.T, r *Rng, s *Stream) {
 	var hist []string
 	hist = append(hist, fmt.Sprintf("db.new base=%d p=%d", base, plen))
 	now := func() int64 { return time.Now().UnixNano() }
+	ref := &refTable{} // monitor's own reference table for update / lookup / addPermanent
+	netLo, netHi := uint32(0), uint32(0)
+	{
+		sz := uint32(1) << (32 - plen)
+		st := base / sz * sz
+		netLo, netHi = st+1, st+sz-2
+		if sz == 1 {
+			netLo, netHi = st, st
+		}
+	}
+	inNet := func(ip net.IP) (uint32, string) {
+		v4 := ip.To4()
+		if v4 == nil {
+			return 0, "err:not-v4"
+		}
+		a := IPU32(ip)
+		if a < netLo || a > netHi {
+			return 0, "err:not-in-range"
+		}
+		return a, ""
+	}
+	refCheck := func(op, got, want string) {
+		if got != want {
+			s.Find(Finding{Property: "C11", Signature: "ipdb:" + strings.SplitN(op, " ", 2)[0] + ":" + want + "!=" + got, Stream: "ipdb",
+				What: "IPDB result differs from a reference table with one live binding per address and per client", Ops: append(append([]string(nil), hist...), op), Expected: want, Observed: got})
+		}
+	}
 	bound := map[uint32]int64{} // monitor's own view: address -> latest expiry it may be bound until (maxInt = permanent)
 	dynLo, dynHi := uint32(0), uint32(0)
 	{
@@ -372,12 +399,22 @@ func ipdbScript(t *testing.T, r *Rng, s *Stream) {
 			} else {
 				ans = fmt.Sprintf("ok %d", IPU32(ip))
 			}
+			if b := ref.byDuid(now(), du); b != nil {
+				refCheck(op, ans, fmt.Sprintf("ok %d", b.ip))
+			} else {
+				refCheck(op, ans, "err:not-found")
+			}
 		case 4:
 			a, du := addr(), Pick(r, duids...)
 			op = fmt.Sprintf("db.addperm t=%d ip=%s duid=%s", now(), IPStr(a), Hex(du))
 			ans = errClass(db.AddPermanentClient(a, du))
 			if ans == "ok" {
 				bound[IPU32(a)] = 1 << 62
+			}
+			if n, e := inNet(a); e != "" {
+				refCheck(op, ans, e)
+			} else {
+				refCheck(op, ans, ref.apply(clOp{"injectperm", n, du, 0, 0}, now()))
 			}
 		case 5, 6, 7, 8:
 			a, du := addr(), Pick(r, duids...)
@@ -386,6 +423,31 @@ func ipdbScript(t *testing.T, r *Rng, s *Stream) {
 			ans = errClass(db.UpdateClient(a, du, time.Duration(ttl)))
 			if ans == "ok" && bound[IPU32(a)] < now()+ttl {
 				bound[IPU32(a)] = now() + ttl
+			}
+			if n, e := inNet(a); e != "" {
+				refCheck(op, ans, e)
+			} else {
+				t := now()
+				x, y := ref.byIP(t, n), ref.byDuid(t, du)
+				want := ""
+				switch {
+				case x != nil && x == y: // extends the caller's own binding, never shortening it
+					if x.exp < t+ttl {
+						x.exp = t + ttl
+					}
+					want = "ok"
+				case x == nil && y == nil: // creates one; the fresh binding must be live
+					ref.apply(clOp{"inject", n, du, ttl, 0}, t)
+					want = "ok"
+					if ttl < 0 {
+						want = "err:no-ip"
+					}
+				case x != nil:
+					want = "err:ip-exists"
+				default:
+					want = "err:duid-exists"
+				}
+				refCheck(op, ans, want)
 			}
 		case 9, 10, 11:
 			a, du := addr(), Pick(r, duids...)
